@@ -53,11 +53,12 @@ STD_ENUMS = {
 # ---------------------------------------------------------------- values
 
 class VInt:
-    __slots__ = ("t", "ty", "lo", "hi")
+    __slots__ = ("t", "ty", "lo", "hi", "tz")
 
-    def __init__(self, t, ty, lo=None, hi=None):
+    def __init__(self, t, ty, lo=None, hi=None, tz=0):
         self.t = t
         self.ty = ty
+        self.tz = tz          # number of low bits known to be zero (for tag arithmetic on packed handles)
         tlo, thi = ty_range(ty)
         self.lo = tlo if lo is None else max(lo, tlo)
         self.hi = thi if hi is None else min(hi, thi)
@@ -367,7 +368,12 @@ class Encoder:
         return v
 
     # ------------------------------------------------------------ arithmetic
-    def wrap(self, term, lo, hi, ty):
+    def wrap(self, term, lo, hi, ty, tz=0):
+        r = self._wrap(term, lo, hi, ty)
+        r.tz = min(tz, INT_TYPES[ty][0])
+        return r
+
+    def _wrap(self, term, lo, hi, ty):
         tlo, thi = ty_range(ty)
         if lo >= tlo and hi <= thi:
             return VInt(term, ty, lo, hi)
@@ -553,6 +559,12 @@ class Encoder:
             if signed and r >= (1 << (bits - 1)):
                 r -= 1 << bits
             return self.const_int(r, ty)
+        if op in ("BitOr", "BitXor"):
+            for x, c in ((a, cb), (b, ca)):
+                if c is not None and 0 <= c < (1 << x.tz):
+                    # the constant only touches bits known to be zero: or/xor == addition
+                    _, signed_ = INT_TYPES[ty]
+                    return self.wrap(x.t + c, x.lo + c, x.hi + c, ty)
         if op == "BitAnd":
             for x, c in ((a, cb), (b, ca)):
                 if c is not None:
@@ -646,6 +658,10 @@ class Encoder:
             if m.group(1).strip() == "":
                 return VAgg(vals)
             return self.adt_value(m.group(1), vals)
+        m = re.match(r"^\{0x([0-9a-f]+) as \*(?:const|mut) .*\}$", txt)
+        if m:
+            # integer address used as a pointer constant (tagged handles)
+            return self.const_int(int(m.group(1), 16), "usize")
         m = re.match(r"^\{(alloc\d+)(?:\+0x([0-9a-f]+))?(?:<imm>)?: (.*)\}$", txt)
         if m:
             info = self.find_alloc(m.group(1))
@@ -1047,7 +1063,10 @@ class Encoder:
             if a.t.eq(b.t):
                 return a
             ty = a.ty
-            return VInt(self.name_ite(z3.If(cond, a.t, b.t)), ty, min(a.lo, b.lo), max(a.hi, b.hi))
+            ca, cb = self.as_const(a.t), self.as_const(b.t)
+            tza = a.tz if ca is None else (64 if ca == 0 else ((ca & -ca).bit_length() - 1))
+            tzb = b.tz if cb is None else (64 if cb == 0 else ((cb & -cb).bit_length() - 1))
+            return VInt(self.name_ite(z3.If(cond, a.t, b.t)), ty, min(a.lo, b.lo), max(a.hi, b.hi), tz=min(tza, tzb))
         if isinstance(a, VBool) and isinstance(b, VBool):
             if a.t.eq(b.t):
                 return a
@@ -1110,18 +1129,18 @@ class Encoder:
                 raise Refuse("IntToInt of %r" % (v,))
             if ty not in INT_TYPES:
                 raise Refuse("IntToInt to " + ty)
-            return self.wrap(v.t, v.lo, v.hi, ty)
+            return self.wrap(v.t, v.lo, v.hi, ty, tz=v.tz)
         if kind == "Transmute":
             if isinstance(v, VInt) and ty in INT_TYPES:
                 if INT_TYPES[ty][0] != INT_TYPES[v.ty][0]:
                     raise Refuse("transmute width change")
-                return self.wrap(v.t, v.lo, v.hi, ty)
+                return self.wrap(v.t, v.lo, v.hi, ty, tz=v.tz)
             if isinstance(v, (VOpaque, VRef, VStatic, VBoxVal)):
                 return v
             if isinstance(v, VInt) and (ty.startswith("*") or ty.startswith("&") or "NonNull" in ty):
                 # integer used as a pointer (tagged handles such as tz::timezone::Repr): keep the address
                 # as a usize so that tag / shift arithmetic on it stays exact; dereferencing it is refused
-                return self.wrap(v.t, v.lo, v.hi, "usize")
+                return self.wrap(v.t, v.lo, v.hi, "usize", tz=v.tz)
             if isinstance(v, VInt) and re.fullmatch(r"[A-Za-z_][A-Za-z_0-9:]*", ty) and self.lookup_enum(ty.split("::")[-1]) is None:
                 # integer -> single-field newtype (e.g. core::num::niche_types::Nanoseconds)
                 return VAgg({0: v}, tag=ty.split("::")[-1])
@@ -1221,7 +1240,7 @@ class Encoder:
             if op.startswith("Shr"):
                 q, _, qlo, qhi = self.floor_divmod_const(a.t, a.lo, a.hi, 1 << k)
                 return VInt(q, ty, qlo, qhi)
-            return self.wrap(a.t * (1 << k), a.lo << k, a.hi << k, ty)
+            return self.wrap(a.t * (1 << k), a.lo << k, a.hi << k, ty, tz=a.tz + k)
         if op in ("BitAnd", "BitOr", "BitXor"):
             return self.bitop(op, a, b)
         raise Refuse("binop " + op)
@@ -1358,6 +1377,14 @@ class Encoder:
             return ("value", VOpaque("error"))
         if re.search(r"^QSELF\[.* as .*ErrorContext\]::(context|with_context)$", sg):
             self.opaque_calls[sg] = self.opaque_calls.get(sg, 0) + 1
+            if re.match(r"^<(?:\w+::)*Result<", func.strip()):
+                # Result<T, Error>::context / with_context: Ok passes through, only the error is rewrapped
+                v = self.operand(state, args[0])
+                if isinstance(v, VEnum):
+                    vs = {k: dict(p) for k, p in v.variants.items()}
+                    vs["Err"] = {0: VOpaque("error")}
+                    return ("value", VEnum(v.discr, vs, v.ty, v.dmap))
+                raise Refuse("Result::with_context on %r" % (v,))
             return ("value", VOpaque("error"))
         if sg in ("core::intrinsics::cold_path", "std::intrinsics::cold_path", "core::hint::cold_path"):
             return ("value", VAgg({}))
@@ -1446,7 +1473,34 @@ class Encoder:
 
     RI_CONV = re.compile(r"^<((?:\w+::)*Constant|(?:\w+::)*ri(?:8|16|32|64|128)<(?:-?\d+|i\d+::MIN), (?:-?\d+|i\d+::MAX)>) as (?:\w+::)*(RInto|RFrom)<((?:\w+::)*Constant|(?:\w+::)*ri(?:8|16|32|64|128)<(?:-?\d+|i\d+::MIN), (?:-?\d+|i\d+::MAX)>)>>::(rinto|rfrom)$")
 
+    RI_IMPL_CONV = re.compile(r"^<impl (?:\w+::)*(TryRInto|RInto)<.*> as (?:\w+::)*(?:TryRInto|RInto)<(?:\w+::)*(ri(?:8|16|32|64|128))<(-?\d+|i\d+::MIN), (-?\d+|i\d+::MAX)>>>::(try_rinto|rinto)$")
+
+    def rangeint_impl_conv(self, state, func, args):
+        """conversions whose source is an `impl RInto<..>` / `impl TryRInto<..>` parameter of a generic body:
+        the source is whatever ranged integer (or Constant) value arrives; the target is spelled out"""
+        m = self.RI_IMPL_CONV.match(func.strip())
+        if not m or self.debug_assertions:
+            return None
+        tgt = m.group(2)
+        rty = "i" + tgt[2:]
+        lo = ty_range(rty)[0] if "MIN" in m.group(3) else int(m.group(3))
+        hi = ty_range(rty)[1] if "MAX" in m.group(4) else int(m.group(4))
+        v = self.operand(state, args[0])
+        if isinstance(v, VAgg) and len(v.f) == 1 and isinstance(v.f.get(0), VInt):
+            v = v.f[0]
+        if not isinstance(v, VInt):
+            return None
+        self.notes.append("hand-modelled ranged-integer conversion: %s" % m.group(5))
+        payload = VAgg({0: self.wrap(v.t, v.lo, v.hi, rty)}, tag=tgt)
+        if m.group(5) == "rinto":
+            return ("value", payload)
+        ok = self.name_bool(z3.And(v.t >= lo, v.t <= hi), "riok")
+        return ("value", VEnum(z3.If(ok, z3.IntVal(0), z3.IntVal(1)), {"Ok": {0: payload}, "Err": {0: VOpaque("error")}}, "Result", STD_ENUMS["Result"]))
+
     def rangeint_conv(self, state, func, args):
+        r = self.rangeint_impl_conv(state, func, args)
+        if r is not None:
+            return r
         m = self.RI_CONV.match(func.strip())
         if not m or self.debug_assertions or len(args) != 1:
             return None
@@ -1845,6 +1899,7 @@ class Encoder:
                 state = self.merge_states(inc)
             pc = self.name_bool(z3.simplify(pc), "pc") if not z3.is_const(pc) else pc
             blk = fn.blocks[b]
+            pc0_block = pc
             try:
                 for st in blk.stmts:
                     self.stats["stmts"] += 1
@@ -1853,7 +1908,13 @@ class Encoder:
                 cur_st = blk.term
                 self.terminator(state, blk.term, pc, pfx + b, incoming, rets)
             except Refuse as e:
-                raise Refuse("%s in %s at %s: %r" % (e, self.fn.name, b, cur_st))
+                msg = "%s in %s at %s: %r" % (e, self.fn.name, b, cur_st)
+                if b == "bb0" and self.call_depth == 0:
+                    raise Refuse(msg)
+                # "poison": the construct is not modelled. Instead of refusing the whole kernel, require the
+                # block to be unreachable (its entry condition must be unsat) and abandon this path.
+                self.obligations.append(Obligation("unsupported", "unsupported construct must be unreachable: " + msg[:300], pc0_block, b))
+                self.notes.append("unmodelled construct on a path required to be infeasible: " + str(e)[:120])
         if not rets:
             return None, None
         rc = z3.Or([c for c, _ in rets]) if len(rets) > 1 else rets[0][0]
